@@ -78,6 +78,9 @@ func init() {
 		symxPath + ".Assert":   symxAssert,
 		symxPath + ".Fail":     symxFail,
 		symxPath + ".Reach":    symxReach,
+		symxPath + ".Unsupported": func(fr *frame, args []value) value {
+			panic(pathEnd{"unmodelled", "harness oracle: " + argString(args[0])})
+		},
 		symxPath + ".Stub":     symxStub,
 		symxPath + ".Unstub":   symxUnstub,
 		symxPath + ".Observe":  symxObserve,
@@ -121,6 +124,11 @@ func init() {
 		"mvdan.cc/garble/internal/asthelper.IntLit":    symLitExt(false),
 		"mvdan.cc/garble/internal/asthelper.UintLit":   symLitExt(false),
 		"mvdan.cc/garble/internal/asthelper.StringLit": symLitExt(true),
+		symxPath + ".RewindDraws": func(fr *frame, args []value) value {
+			ex := fr.i.ex
+			ex.rewound, ex.rewoundEnd = 0, len(ex.draws)
+			return nil
+		},
 		symxPath + ".ForkSmallTables": func(fr *frame, args []value) value {
 			fr.i.ex.forkSmallTables = args[0].(bool)
 			return nil
@@ -540,7 +548,30 @@ func symxIte(fr *frame, args []value) value {
 const symLitPrefix = "\x00SYM"
 
 func (ex *Exec) newSymLit(v value) string {
+	// the same term yields the same marker text, so that two generated trees
+	// can be compared textually
+	var key strings.Builder
+	switch v := v.(type) {
+	case sym:
+		fmt.Fprintf(&key, "i%d.%d", v.k, v.t.ID)
+	case symstr:
+		key.WriteString("s")
+		for _, b := range v.b {
+			if s, ok := b.(sym); ok {
+				fmt.Fprintf(&key, ".%d", s.t.ID)
+			} else {
+				fmt.Fprintf(&key, ".c%d", b.(uint8))
+			}
+		}
+	}
+	if ex.symLitIdx == nil {
+		ex.symLitIdx = map[string]int{}
+	}
+	if n, ok := ex.symLitIdx[key.String()]; ok && key.Len() > 0 {
+		return fmt.Sprintf("%s%d", symLitPrefix, n)
+	}
 	ex.symLits = append(ex.symLits, v)
+	ex.symLitIdx[key.String()] = len(ex.symLits) - 1
 	return fmt.Sprintf("%s%d", symLitPrefix, len(ex.symLits)-1)
 }
 
@@ -713,11 +744,39 @@ func (ex *Exec) consultPolicy(fr *frame, method string, global bool, n int) int6
 	return b
 }
 
+// reuseDraw returns the terms of the next draw of the first run when the
+// harness rewound the seeded sequence (symx.RewindDraws) and the draw matches
+// (same method, argument and size); otherwise nil and the sequence is
+// considered diverged from here on.
+func (ex *Exec) reuseDraw(method string, global bool, arg *smt.Term, n int) []*smt.Term {
+	if global || ex.rewound < 0 {
+		return nil
+	}
+	for ex.rewound < ex.rewoundEnd && ex.draws[ex.rewound].Global {
+		ex.rewound++
+	}
+	if ex.rewound >= ex.rewoundEnd {
+		ex.rewound = -1
+		return nil
+	}
+	d := ex.draws[ex.rewound]
+	if d.Method != method || d.ArgTerm != arg || len(d.Terms) != n {
+		ex.rewound = -1
+		ex.noteOnce("second run diverged from the first run's draw sequence")
+		return nil
+	}
+	ex.rewound++
+	return d.Terms
+}
+
 // randDraw: a fresh value of the given kind with `bits` significant bits.
 func randDraw(method string, k types.BasicKind, bits uint8, global bool) externalFn {
 	return func(fr *frame, args []value) value {
 		ex := fr.i.ex
 		w := kindWidth(k)
+		if ts := ex.reuseDraw(method, global, nil, 1); ts != nil {
+			return mk(ts[0], k)
+		}
 		b := ex.consultPolicy(fr, method, global, 0)
 		v := ex.freshVar(drawPrefix(global)+method, w)
 		if bits < w {
@@ -741,6 +800,9 @@ func randDrawN(method string, k types.BasicKind, global bool) externalFn {
 		nt := ex.term(n)
 		if ex.branch(c.Cmp(smt.OSle, nt, c.Const(w, 0))) {
 			panic(targetPanic{iface{t: types.Typ[types.String], v: "invalid argument to " + method}})
+		}
+		if ts := ex.reuseDraw(method, global, nt, 1); ts != nil {
+			return mk(ts[0], k)
 		}
 		var v *smt.Term
 		if !isSym(n) && asInt64(n) > 0 && asInt64(n) < 1<<31 {
@@ -777,6 +839,12 @@ func randDrawN(method string, k types.BasicKind, global bool) externalFn {
 // compares the draw with a probability threshold strictly inside (0,1).
 func randFloat32(fr *frame, args []value) value {
 	ex := fr.i.ex
+	if ts := ex.reuseDraw("Float32", false, nil, 1); ts != nil {
+		if ts[0].Val == 0 {
+			return float32(0)
+		}
+		return float32(1<<24-1) / (1 << 24)
+	}
 	v := ex.freshVar("draw:Float32", 32)
 	ex.assume(ex.ctx.Cmp(smt.OUlt, v, ex.ctx.Const(32, 2)))
 	k := ex.concretize(v)
@@ -797,6 +865,23 @@ func randPerm(fr *frame, args []value) value {
 	c := ex.ctx
 	n := int(fr.i.concInt(args[1]))
 	out := make([]value, n)
+	if ts := ex.reuseDraw("Perm", false, c.Const(64, uint64(n)), n); ts != nil {
+		for k := range out {
+			out[k] = mk(ts[k], types.Int)
+		}
+		return out
+	}
+	if b := ex.consultPolicy(fr, "Perm", false, n); b > 0 {
+		// the harness restricts this permutation to the identity
+		var terms []*smt.Term
+		for k := 0; k < n; k++ {
+			out[k] = k
+			terms = append(terms, c.Const(64, uint64(k)))
+		}
+		ex.recordDraw("Perm", false, c.Const(64, uint64(n)), terms...)
+		ex.noteOnce("a Perm draw is restricted to the identity permutation (harness DrawPolicy)")
+		return out
+	}
 	var terms []*smt.Term
 	for k := 0; k < n; k++ {
 		v := ex.freshVar("draw:Perm", 64)
@@ -844,6 +929,12 @@ func randRead(global bool) externalFn {
 	return func(fr *frame, args []value) value {
 		ex := fr.i.ex
 		p := args[len(args)-1].([]value)
+		if ts := ex.reuseDraw("Read", global, ex.ctx.Const(64, uint64(len(p))), len(p)); ts != nil {
+			for k := range p {
+				p[k] = mk(ts[k], types.Uint8)
+			}
+			return tuple{len(p), iface{}}
+		}
 		var terms []*smt.Term
 		for k := range p {
 			v := ex.freshVar(drawPrefix(global)+"Read", 8)
